@@ -76,7 +76,7 @@ Definition run (x : sx) : sx :=
     | Fuel => SL [SZ (-998)]
     end
   else if mode =? 1 then SL (ref_run rempty (sx_zs (sx_nth x 1)) (sx_l (sx_nth x 2)))
-  else if mode =? 2 then sx_bool (judge_sort (dec_rgraph (sx_nth x 1)) (sx_z (sx_nth x 2)) (sx_zs (sx_nth x 3)))
+  else if mode =? 2 then sx_bool (judge_sort_lenient (dec_rgraph (sx_nth x 1)) (sx_z (sx_nth x 2)) (sx_zs (sx_nth x 3)))
   else
     let u := sx_zs (sx_nth x 1) in
     let a := abs (dec_graph (sx_nth x 2)) in
